@@ -136,7 +136,8 @@ Section Ids.
        | [] => []
        | (t, gn) :: r =>
            (if g_no_transcripts g then [] else [t]) ++
-           (if g_no_genes g then [] else if match last with Some l => str_eqb l gn | None => false end then [] else [gn]) ++
+           (if g_no_genes g then [] else if match last with Some l => str_eqb l gn | None => false end then [] else
+            match extent g st gn with Some _ => [gn] | None => [] end) ++
            go r (Some gn)
        end) ps last.
 
@@ -147,14 +148,15 @@ Section Ids.
     - apply derive_inv in H as (a & b & c & Ha & Hb & Hc & ->). rewrite !map_app. rewrite (IH _ _ Hc).
       change (ids_spec ((t, gn) :: ps) last) with
         ((if g_no_transcripts g then [] else [t]) ++
-         (if g_no_genes g then [] else if match last with Some l => str_eqb l gn | None => false end then [] else [gn]) ++
+         (if g_no_genes g then [] else if match last with Some l => str_eqb l gn | None => false end then [] else
+            match extent g st gn with Some _ => [gn] | None => [] end) ++
          ids_spec ps (Some gn)).
       f_equal; [|f_equal].
       + unfold d_tr in Ha. destruct (g_no_transcripts g); [inversion Ha; reflexivity|].
         destruct (extent g st t) as [x|]; [|discriminate]. inversion Ha; subst. cbn [map]. rewrite did_t by exact Ne. reflexivity.
       + unfold d_ge in Hb. destruct (g_no_genes g); [inversion Hb; reflexivity|].
         destruct (match last with Some l => str_eqb l gn | None => false end); [inversion Hb; reflexivity|].
-        destruct (extent g st gn) as [x|]; [|discriminate]. inversion Hb; subst. cbn [map]. rewrite did_g. reflexivity.
+        destruct (extent g st gn) as [x|]; [|inversion Hb; reflexivity]. inversion Hb; subst. cbn [map]. rewrite did_g. reflexivity.
   Qed.
 
   Lemma ids_spec_In : forall ps last e, In e (ids_spec ps last) ->
@@ -163,11 +165,14 @@ Section Ids.
     induction ps as [|[t gn] ps IH]; intros last e H; [contradiction|].
     change (ids_spec ((t, gn) :: ps) last) with
       ((if g_no_transcripts g then [] else [t]) ++
-       (if g_no_genes g then [] else if match last with Some l => str_eqb l gn | None => false end then [] else [gn]) ++
+       (if g_no_genes g then [] else if match last with Some l => str_eqb l gn | None => false end then [] else
+            match extent g st gn with Some _ => [gn] | None => [] end) ++
        ids_spec ps (Some gn)) in H.
     cbn [map fst snd emitted]. apply in_app_or in H as [H|H]; [|apply in_app_or in H as [H|H]].
     - destruct (g_no_transcripts g); [contradiction|]. destruct H as [<-|[]]. left. left. reflexivity.
-    - destruct (g_no_genes g); [contradiction|]. right. apply in_or_app. left. exact H.
+    - destruct (g_no_genes g); [contradiction|]. right. apply in_or_app. left.
+      destruct (match last with Some l => str_eqb l gn | None => false end); [contradiction|].
+      destruct (extent g st gn); [exact H|contradiction].
     - destruct (IH _ _ H) as [A|A]; [left; right; exact A|right; apply in_or_app; right; exact A].
   Qed.
 
@@ -177,7 +182,8 @@ Section Ids.
     induction ps as [|[t gn] ps IH]; intros last Ht Hg Hd; [constructor|].
     change (ids_spec ((t, gn) :: ps) last) with
       ((if g_no_transcripts g then [] else [t]) ++
-       (if g_no_genes g then [] else if match last with Some l => str_eqb l gn | None => false end then [] else [gn]) ++
+       (if g_no_genes g then [] else if match last with Some l => str_eqb l gn | None => false end then [] else
+            match extent g st gn with Some _ => [gn] | None => [] end) ++
        ids_spec ps (Some gn)).
     cbn [map fst snd emitted] in *. inversion Ht as [|? ? Htn Ht']; subst.
     assert (Hg' : NoDup (emitted (Some gn) (map snd ps))).
@@ -190,17 +196,20 @@ Section Ids.
       - destruct (match l with Some l0 => str_eqb l0 x | None => false end); [contradiction|]. destruct H as [<-|[]]. left. reflexivity.
       - right. apply (IHr _ _ H). }
     (* the gene part *)
-    assert (Hgene : NoDup ((if g_no_genes g then [] else if match last with Some l => str_eqb l gn | None => false end then [] else [gn])
+    assert (Hgene : NoDup ((if g_no_genes g then [] else if match last with Some l => str_eqb l gn | None => false end then [] else
+            match extent g st gn with Some _ => [gn] | None => [] end)
                            ++ ids_spec ps (Some gn))).
     { destruct (g_no_genes g); [exact Hrest|].
       destruct (match last with Some l => str_eqb l gn | None => false end) eqn:El; [exact Hrest|].
+      destruct (extent g st gn); [|exact Hrest].
       cbn [app]. constructor; [|exact Hrest]. intros X. apply ids_spec_In in X as [X|X].
       - apply (Hd gn gn); [right; exact X|left; reflexivity|reflexivity].
       - cbn [app] in Hg. inversion Hg; contradiction. }
     destruct (g_no_transcripts g); [exact Hgene|]. cbn [app]. constructor; [|exact Hgene].
     intros X. apply in_app_or in X as [X|X].
     - destruct (g_no_genes g); [contradiction|].
-      destruct (match last with Some l => str_eqb l gn | None => false end); [contradiction|]. destruct X as [<-|[]].
+      destruct (match last with Some l => str_eqb l gn | None => false end); [contradiction|].
+      destruct (extent g st gn); [|contradiction]. destruct X as [<-|[]].
       apply (Hd gn gn); [left; reflexivity|left; reflexivity|reflexivity].
     - apply ids_spec_In in X as [X|X]; [contradiction|].
       apply (Hd t t); [left; reflexivity|right; apply Emem; exact X|reflexivity].
